@@ -258,6 +258,22 @@ def run(case):
         case.check(a6.shape == (2,) + shape and np.allclose(a6[0], a0[n - 1], atol=1e-6 * amp)
                    and np.allclose(a6[1], a0[0], atol=1e-6 * amp), "load([n-1, 0]) returns the wrong rows")
         case.check(tuple(loader.construct_dask().shape) == a0.shape, "construct_dask declares a wrong shape")
+        # an output shape given at the call wins over the loader's default
+        shape2 = tuple(max(2, s_ + int(d_)) for s_, d_ in zip(shape, rng.integers(-2, 3, 3)))
+        if shape2 != shape:
+            try:
+                want2 = np.asarray(SubtomogramLoader(img, mole, order=order, scale=scale, output_shape=shape2,
+                                                     corner_safe=p["corner_safe"]).asnumpy())
+            except (SubvolumeOutOfBoundError, ValueError):
+                want2 = None
+            if want2 is not None:
+                got2 = np.asarray(loader.asnumpy(output_shape=shape2))
+                one2 = np.asarray(loader.load(0, output_shape=shape2))
+                lazy2 = loader.construct_dask(output_shape=shape2)
+                ok2 = got2.shape == want2.shape == tuple(lazy2.shape) and one2.shape == shape2 and \
+                    float(np.abs(got2 - want2).max()) <= TOLERANCES["entry_points_rel"] * amp
+                case.check(ok2, "an output_shape given at the call does not override the loader's default shape", None,
+                           default=shape, requested=shape2, got=got2.shape)
         # the loader follows its molecules: after an in-place edit of the Molecules object the very same loader
         # samples the new poses (compared with a fresh loader built at the new poses)
         delta = rng.uniform(-1.0, 1.0, size=(n, 3)) * scale
